@@ -180,6 +180,7 @@ structure Rel (a : Abs) (s : St) : Prop where
   rows : ∀ id, s.db.hasRow id = true → a.mayHaveRow id = true
   files : ∀ id f, a.file id = some f → s.store id = some f
   tx : a.tx = s.tx
+  redl : ∀ id ∈ a.redl, ∀ r ∈ s.db.rows, r.id = id → r.remote = true ∧ r.lit = litOf id
 
 theorem fetchOk_congr (st : Store) (r r0 : Row) (hi : r0.id = r.id) (hl : r0.lit = r.lit) (hr : r0.remote = r.remote) :
     fetchOk st r = fetchOk st r0 := by
@@ -314,14 +315,11 @@ theorem rel_commit_rows (a : Abs) (s : St) (b : List Stmt) (hrel : Rel a s)
 /-- one disciplined step keeps `Rel` and `AllFetchable` -/
 theorem step_sound (a : Abs) (s : St) (st : Step) (hrel : Rel a s) (hinv : AllFetchable s)
     (hok : a.ok st = true) : Rel (a.exec st) (exec s st) ∧ AllFetchable (exec s st) := by
-  have setCase : ∀ (id : MsgId) (f : File), a.mayHaveRow id = false →
+  have setCase : ∀ (id : MsgId) (f : File),
+      (a.mayHaveRow id = false ∨ (id ∈ a.redl ∧ (f = .partialF ∨ f = .complete (litOf id)))) →
       Rel (a.setFile id f) { s with store := s.store.put id f } ∧ AllFetchable { s with store := s.store.put id f } := by
-    intro id f hno
-    have hnr : s.db.hasRow id = false := by
-      cases hh : s.db.hasRow id with
-      | false => rfl
-      | true => have := hrel.rows id hh; simp [this] at hno
-    refine ⟨⟨hrel.rows, ?_, hrel.tx⟩, ?_⟩
+    intro id f hcase
+    refine ⟨⟨hrel.rows, ?_, hrel.tx, hrel.redl⟩, ?_⟩
     · intro id' f' hf
       by_cases he : id' = id
       · subst he; rw [file_setFile_same] at hf; simp [Store.put, ← hf]
@@ -329,14 +327,25 @@ theorem step_sound (a : Abs) (s : St) (st : Step) (hrel : Rel a s) (hinv : AllFe
         simp [Store.put, he, hrel.files id' f' hf]
     · intro r hr
       show fetchOk (s.store.put id f) r = true
-      rw [fetchOk_put_other _ _ _ _ (not_hasRow_ne _ _ hnr r hr)]
-      exact hinv r hr
+      by_cases he : r.id = id
+      · rcases hcase with hno | ⟨hmem, hf⟩
+        · exfalso
+          have hnr : s.db.hasRow id = false := by
+            cases hh : s.db.hasRow id with
+            | false => rfl
+            | true => have := hrel.rows id hh; simp [this] at hno
+          exact not_hasRow_ne _ _ hnr r hr he
+        · obtain ⟨hrem, hlit⟩ := hrel.redl id hmem r hr he
+          unfold fetchOk Store.put
+          rcases hf with hf | hf <;> subst hf <;> simp [he, hrem, hlit]
+      · rw [fetchOk_put_other _ _ _ _ he]
+        exact hinv r hr
   cases st with
   | rdBegin => exact ⟨hrel, hinv⟩
   | rd n => exact ⟨hrel, hinv⟩
   | get id => exact ⟨hrel, hinv⟩
   | list => exact ⟨hrel, hinv⟩
-  | txBegin => exact ⟨⟨hrel.rows, hrel.files, rfl⟩, hinv⟩
+  | txBegin => exact ⟨⟨hrel.rows, hrel.files, rfl, hrel.redl⟩, hinv⟩
   | stmt q =>
     have ht := hrel.tx
     cases h : s.tx with
@@ -346,10 +355,25 @@ theorem step_sound (a : Abs) (s : St) (st : Step) (hrel : Rel a s) (hinv : AllFe
     | some b =>
       have h' : a.tx = some b := by rw [ht, h]
       simp only [Abs.exec, exec, h, h']
-      exact ⟨⟨hrel.rows, hrel.files, rfl⟩, hinv⟩
-  | setOpen id => exact setCase id _ (by simpa [Abs.ok] using hok)
-  | setMid id => exact setCase id _ (by simpa [Abs.ok] using hok)
-  | setEnd id l => exact setCase id _ (by simpa [Abs.ok] using hok)
+      exact ⟨⟨hrel.rows, hrel.files, rfl, hrel.redl⟩, hinv⟩
+  | setOpen id =>
+    refine setCase id _ ?_
+    simp only [Abs.ok, Bool.or_eq_true, Bool.not_eq_true', mem_contains] at hok
+    rcases hok with h | h
+    · exact Or.inl h
+    · exact Or.inr ⟨h, Or.inl rfl⟩
+  | setMid id =>
+    refine setCase id _ ?_
+    simp only [Abs.ok, Bool.or_eq_true, Bool.not_eq_true', mem_contains] at hok
+    rcases hok with h | h
+    · exact Or.inl h
+    · exact Or.inr ⟨h, Or.inl rfl⟩
+  | setEnd id l =>
+    refine setCase id _ ?_
+    simp only [Abs.ok, Bool.or_eq_true, Bool.not_eq_true', Bool.and_eq_true, mem_contains, beq_iff_eq] at hok
+    rcases hok with h | ⟨h, hl⟩
+    · exact Or.inl h
+    · exact Or.inr ⟨h, Or.inr (by rw [hl])⟩
   | del ids =>
     simp only [Abs.ok, List.all_eq_true, Bool.not_eq_true'] at hok
     have hnr : ∀ id ∈ ids, s.db.hasRow id = false := by
@@ -357,7 +381,7 @@ theorem step_sound (a : Abs) (s : St) (st : Step) (hrel : Rel a s) (hinv : AllFe
       cases hh : s.db.hasRow id with
       | false => rfl
       | true => have := hrel.rows id hh; have := hok id hid; simp_all
-    refine ⟨⟨hrel.rows, ?_, hrel.tx⟩, ?_⟩
+    refine ⟨⟨hrel.rows, ?_, hrel.tx, hrel.redl⟩, ?_⟩
     · intro id f hf
       obtain ⟨hni, hf'⟩ := file_forget a ids id f hf
       show (s.store.del ids).1 id = some f
@@ -379,16 +403,22 @@ theorem step_sound (a : Abs) (s : St) (st : Step) (hrel : Rel a s) (hinv : AllFe
       simp only [Abs.ok, h', List.all_eq_true, Bool.and_eq_true, Bool.not_eq_true', beq_iff_eq,
         not_contains] at hok
       simp only [Abs.exec, exec, h, h']
-      have hdis : ∀ id ∈ b.flatMap stmtInserts, id ∉ b.flatMap stmtDeletes := fun id hid => (hok id hid).2
-      refine ⟨⟨?_, ?_, rfl⟩, ?_⟩
+      have hdis : ∀ id ∈ b.flatMap stmtInserts, id ∉ b.flatMap stmtDeletes := fun id hid => (hok id hid).1.2
+      refine ⟨⟨?_, ?_, rfl, ?_⟩, ?_⟩
       · intro id hh; exact rel_commit_rows a s b hrel hdis id hh
       · intro id f hf; exact hrel.files id f (by simpa [Abs.commit, Abs.file] using hf)
+      · intro id hid r hr hri
+        obtain ⟨h1, _⟩ := row_applyAll b s.db r hr
+        rcases h1 with ⟨r0, hr0, hi, hl, hrm⟩ | ⟨hins, _⟩
+        · have := hrel.redl id hid r0 hr0 (hi.trans hri)
+          rw [← hrm, ← hl]; exact this
+        · exact absurd (by simpa [Abs.commit] using hid) ((hok _ hins).2 ∘ (hri ▸ ·))
       · intro r hr
         obtain ⟨h1, _⟩ := row_applyAll b s.db r hr
         rcases h1 with ⟨r0, hr0, hi, hl, hrm⟩ | ⟨hins, hlit⟩
         · show fetchOk s.store r = true
           rw [fetchOk_congr s.store r r0 hi hl hrm]; exact hinv r0 hr0
-        · have hfile := hrel.files _ _ (hok _ hins).1.1
+        · have hfile := hrel.files _ _ (hok _ hins).1.1.1
           show fetchOk s.store r = true
           unfold fetchOk; rw [hfile]; simp [hlit]
 
@@ -423,13 +453,19 @@ theorem run_sound (steps : List Step) (a : Abs) (s : St) (hrel : Rel a s) (hinv 
   (run_sound' steps a s hrel hinv h).2
 
 theorem rel_crash (a : Abs) (s : St) (h : Rel a s) : Rel { a with tx := none } (crash s) :=
-  ⟨h.rows, h.files, rfl⟩
+  ⟨h.rows, h.files, rfl, h.redl⟩
 
 /-- no row of the initial state has an id the trace classifies as new -/
 def FreshNew (s : St) : Prop := ∀ k, s.db.hasRow (.new k) = false
 
-theorem rel_init (s : St) (hf : FreshNew s) (ht : s.tx = none) : Rel {} s := by
-  refine ⟨?_, ?_, by simp [ht]⟩
+/-- every row with an id the operation re-downloads can be re-downloaded, and the connector serves the
+    acknowledged literal -/
+def Redl (s : St) (redl : List MsgId) : Prop :=
+  ∀ id ∈ redl, ∀ r ∈ s.db.rows, r.id = id → r.remote = true ∧ r.lit = litOf id
+
+theorem rel_init (s : St) (redl : List MsgId) (hf : FreshNew s) (ht : s.tx = none) (hr : Redl s redl) :
+    Rel { redl := redl } s := by
+  refine ⟨?_, ?_, by simp [ht], hr⟩
   · intro id h
     cases id with
     | old k => simp [Abs.mayHaveRow]
